@@ -57,7 +57,9 @@ def main():
                         if not core._concrete_eq(v1, v2, 1e-7):
                             why = f'{n1}: symbolic {v1} vs real {v2}'
                             break
-                bad = [o for o in rec['obligations'] if o['status'] != 'ok']
+                proved = it['model'].get('proved')
+                bad = [o for o in rec['obligations'] if o['status'] != 'ok'
+                       and (proved is None or [o['label'], o.get('sig')] in proved)]
                 if why is None and bad:
                     why = f"obligation {bad[0]['label']} fails concretely on a path where it was proved"
                 if why is not None and rec.get('notes'):
